@@ -96,6 +96,9 @@ def handler(fmt):
     return registry.get_crypt_handler(fmt)
 
 
+UNUSABLE = {}
+
+
 def backends_of(fmt):
     """selectable backends of a format, in declaration order; [None] when the format has no backend axis"""
     if fmt in LIBPASS:
@@ -111,8 +114,8 @@ def backends_of(fmt):
             try:
                 if H.has_backend(b):
                     out.append(b)
-            except Exception:  # noqa: BLE001 - an unusable backend is C03's subject
-                continue
+            except Exception as e:  # noqa: BLE001 - a backend that cannot be probed is C03's subject; it is listed
+                UNUSABLE[(fmt, b)] = repr(e)
     return out or [None]
 
 
@@ -510,6 +513,9 @@ def gen_cases(fmt, backend, tier, seed):
     okeys = sorted(others)
     combos = [dict(zip(okeys, vals)) for vals in itertools.product(*[others[k] for k in okeys])] if okeys else [{}]
     d_pw = {"cheap": small, "medium": tiny, "slow": one, "wrapper": one, "token": one}[bud]
+    if fmt.split(".")[-1] in BCRYPT_FAMILY and bud in ("medium", "slow"):
+        # every ident with the empty password (the $2$ key schedule reads the terminator only) and around 72 bytes
+        d_pw = [(c0, 0), (c2, 1), (c0, 72), (c2, 73)]
     if len(idents) * len(combos) * len(ctx_full) > 1:
         for ident in idents:
             for combo in combos:
@@ -922,6 +928,9 @@ def run(ctx):
         fam.setdefault(t["fmt"], set()).add(str(t["backend"]))
     if os.environ.get("VERIF_C02_ONLY"):
         ctx.cap("VERIF_C02_ONLY restricted the format axis to " + os.environ["VERIF_C02_ONLY"])
+    if UNUSABLE:
+        ctx.cov["backends_not_probeable"] = {f"{f}/{b}": v for (f, b), v in sorted(UNUSABLE.items())}
+        ctx.cap("has_backend() raised for " + ", ".join(f"{f}/{b}" for f, b in sorted(UNUSABLE)) + " (not walked here; C03's subject)")
     ctx.cov["formats"] = len(fam)
     ctx.cov["format_backend_pairs"] = sum(len(v) for v in fam.values())
     ctx.cov["backends_by_format"] = {k: sorted(v) for k, v in sorted(fam.items()) if v != {"None"}}
